@@ -143,6 +143,12 @@ def run(R):
                      "index is appended (push) to a bucket - no iteration leaves the loop body without a push, so bindings that share the "
                      "join values but differ elsewhere all survive - and the probe side iterates over every index of the bucket it hits")
     r9(R)
+    R.rule("C05-R10", "what the negative stratum derives feeds back: the stratified model is a fixpoint stratum by stratum, so facts concluded by "
+                      "rules with negation must be visible to every rule that can use them. Wherever the rules are split on `negative_premise` and "
+                      "the negated ones are applied in a pass of their own, that pass sits in a loop together with the positive fixpoint (or is "
+                      "itself iterated to a fixpoint and followed by one); a single straight-line pass loses every fact that depends on a "
+                      "conclusion of a rule with negation")
+    r10(R)
     R.rule("C05-R7", "match-or-bind is the last word on a binding row: after a premise position was matched against (or bound in) a row by "
                      "a match-or-bind helper, nothing overwrites entries of that row before it is emitted - a plain insert after the "
                      "test can replace the very value the test just accepted (repeated variable across positions)")
@@ -435,3 +441,43 @@ def r9(R):
                                     looped = True
             R.ob("C05-R9", "probe-all:" + fld, "a hit in `%s` is expanded over every index of the bucket" % fld, looped, where=pt.where(g.ln))
         R.floor("C05-R9", "bucket probes", nb, 3)
+
+
+
+def r10(R):
+    prog = R.prog
+    n = 0
+    for k, b in sorted(prog.bodies.items()):
+        if b.crate != "datalog" or b.is_closure or "::tests::" in k or "/materialisation/" not in b.file:
+            continue
+        # drivers that split the rules on negative_premise (a filter closure reading that field) ...
+        fam = prog.family(k)
+        splits = False
+        for x in fam:
+            if not x.is_closure:
+                continue
+            for bb, i, pl, rv, st in x.assigns():
+                for q, kk in F.rv_places(rv):
+                    if any(e["k"] == "field" and e.get("n") == "negative_premise" for e in q["p"]):
+                        splits = True
+        if not splits:
+            continue
+        # ... and apply the negated ones through a pass of their own
+        passes = [c for c in b.calls() if c.key and c.key in prog.bodies and "negative" in prog.bodies[c.key].name and prog.bodies[c.key].crate == "datalog"]
+        if not passes:
+            continue
+        n += 1
+        loops = b.loops()
+        items = loops.items() if isinstance(loops, dict) else loops
+        for c in passes:
+            inside = [(h, bl) for h, bl in items if c.bb in bl]
+            fix = [cc for cc in b.calls() if cc.name().startswith("infer_with")]
+            together = any(any(cc.bb in bl for cc in fix) for h, bl in inside)
+            callee = prog.bodies[c.key]
+            callee_iterates = any(cc.name().startswith("infer_with") for x in prog.family(callee.key) for cc in x.calls())
+            ok = together or callee_iterates
+            R.ob("C05-R10", "negative-pass-feeds-back:" + b.name, "%s re-runs the positive fixpoint after %s derived something" % (b.name, callee.name), ok,
+                 where=b.where(c.ln), detail=None if ok else "the pass over the rules with negation runs once, after the positive fixpoint: a fact it "
+                 "derives is never offered to the positive rules (or to another rule with negation), so the result is not the stratified model "
+                 "whenever a conclusion of a rule with negation occurs in a rule body")
+    R.floor("C05-R10", "drivers that split the rules on negative_premise and run a separate negative pass", n, 1)
